@@ -13,7 +13,7 @@ from typing import Dict, List, Optional, Sequence, Tuple
 VALUES = ["1", "abc", "{x}", '"x"', "{a{b}c}", '"a{b}c"', '{a"b}', "{a,b=c}", '"a,b=c"', "{a\nb}", 'x # "y"',
           "{a} # {b}", '"a" # b', "{a\\}b}", '"a \\" b"', "{a@b}", "{}", '""', "{ a }", "2001", "{\\'e}", "ab # cd # {e}",
           '"a {b} {c{d}} e"', "{% x}", "{a\r\nb}", "{rows end with \\\\} in LaTeX}", '"q \\\\" q"', "{open \\\\{ only}",
-          '"a {"} b"', "{a \\\\ b}"]
+          '"a {"} b"', "{a \\\\ b}", '" x "', '"pad "', "{\tt}", '" "']
 WS = ["", " ", "\n", "\r\n", "\t", "  ", " \n "]
 GAPS = ["", "% comment", "free text = , \" } {", "a\\@b", "x\ny", "#"]
 ETYPES = ["article", "Book", "commentary", "stringent", "x1", "INPROCEEDINGS", "preambles", "é"]
